@@ -5,7 +5,7 @@
    regenerated tables Gen/Enums.v. *)
 From Coq Require Import List Bool NArith ZArith.
 From Coq Require Import Strings.Byte.
-From LLIR Require Import Gen.Enums Proofs.EnumProofs.
+From LLIR Require Import Gen.Enums Model.EnumModel.
 Import ListNotations.
 Local Open Scope N_scope.
 
@@ -27,7 +27,7 @@ Definition di_members (flags : N) (ks : list nat) : list N :=
 (* keyword of a member value and its reading, through the regenerated table of the enum type *)
 Definition keyword (t : enum_tables) (v : N) : option (list byte) := to_string t (Z.of_N v).
 Definition value_of (t : enum_tables) (s : list byte) : option N :=
-  match from_string t s with EnumProofs.Ok z => Some (Z.to_N z) | Panic => None end.
+  match from_string t s with EnumModel.Ok z => Some (Z.to_N z) | Panic => None end.
 Fixpoint read_all (t : enum_tables) (ss : list (list byte)) : option N :=
   match ss with
   | [] => Some 0
